@@ -24,7 +24,8 @@ RULE = (
 )
 ASSUMPTIONS = ["reference interpreter pbt/decref.py", "particle tables for conjugate names in CDecay'd tables"]
 
-DEF_NAMES = ("dm", "dgamma", "x_s", "Par.1", "beta~", "q'", "A/B", "rho*", "g", "x", "K", "dm-s", "anti-beta", "CP-odd")
+DEF_NAMES = ("dm", "dgamma", "x_s", "Par.1", "beta~", "q'", "A/B", "rho*", "g", "x", "K", "dm-s", "anti-beta", "CP-odd",
+             "_dm.Bs", "(A/2)", "*Kw", "~eta'", "'p", "/2pi", "_")
 ALIAS_NAMES = ("MA", "SLBKPOLE_DtoKlnu", "MyModel", "VSS_x", "Mod-1", "m(2)", "SLBKPOLE2", "PHSP3body", "HELAMP100", "SVS7", "X")
 
 
